@@ -166,19 +166,54 @@ package socks5
 //@   loop 1:
 //@     invariant true
 //@
-//@ func runUDPAssociateDatagramLoop(udpConn *net.UDPConn, ctrlConn net.Conn, resolver apicommon.DNSResolver, allow udpDestinationFilter) (err error)
-//@   property C12
+//@ // Client-side forwarding (C18): each tunnel datagram goes to the SOCKS5 server's UDP address
+//@ // as one UDP datagram with the same bytes, and each UDP datagram from it goes into the tunnel
+//@ // as one tunnel datagram with the same bytes - nothing merged, cut or re-addressed.
+//@ func RunUDPForwardingLoop__closure2()
+//@   property C18
 //@   mode int
 //@   partial
 //@   posts_only
 //@   noframe
 //@   may_panic
-//@   assert_call UDPConn.WriteToUDP: mathint(arg1) == mathint(clientAddr) || allow == nil || (ghost(fvres) == 1 && ghost(fvarg) == mathint(arg1))
+//@   assert_call UDPConn.WriteToUDP: [C18] baseof(arg0) == baseof(buf) && offsetof(arg0) == offsetof(buf) && len(arg0) == n && mathint(arg1) == mathint(downstreamAddr)
+//@   loop 1:
+//@     invariant true
+//@
+//@ func RunUDPForwardingLoop__closure3()
+//@   property C18
+//@   mode int
+//@   partial
+//@   posts_only
+//@   noframe
+//@   may_panic
+//@   assert_call PacketOverStreamTunnel.Write: [C18] baseof(arg0) == baseof(buf) && offsetof(arg0) == offsetof(buf) && len(arg0) == n
+//@   loop 1:
+//@     invariant true
+//@
+//@ func runUDPAssociateDatagramLoop(udpConn *net.UDPConn, ctrlConn net.Conn, resolver apicommon.DNSResolver, allow udpDestinationFilter) (err error)
+//@   property C12 C18
+//@   mode int
+//@   partial
+//@   posts_only
+//@   noframe
+//@   may_panic
+//@   assert_call UDPConn.WriteToUDP: [C12] mathint(arg1) == mathint(clientAddr) || allow == nil || (ghost(fvres) == 1 && ghost(fvarg) == mathint(arg1))
+//@   // datagram mode (C18): what goes to the destination is the payload part of the datagram
+//@   // just received (its last len(payload) bytes); a reply goes to the client as the header built
+//@   // for the replying address followed by exactly the n received bytes
+//@   assert_at "if allow != nil && !allow(dstAddr) {": [C18] len(payload) <= n && forall(i, 0, len(payload), payload[i] == buf[n - len(payload) + i])
+//@   ghost_call udpAddrToHeader: ghost(hdrfor) = mathint(arg0)
+//@   assert_call UDPConn.WriteToUDP @"append(header, buf[:n]...)": [C18] mathint(arg1) == mathint(clientAddr) && ghost(hdrfor) == mathint(addr)
+//@   assert_call UDPConn.WriteToUDP @"append(header, buf[:n]...)": [C18] len(arg0) == len(header) + n
+//@   assert_call UDPConn.WriteToUDP @"append(header, buf[:n]...)": [C18] forall(i, 0, len(header), arg0[i] == header[i])
+//@   assert_call UDPConn.WriteToUDP @"append(header, buf[:n]...)": [C18] forall(j, 0, n, arg0[len(header) + j] == buf[j])
 //@   loop 1:
 //@     invariant true
 //@
 //@ func udpAddrToHeader(addr *net.UDPAddr) (h []byte)
-//@   trusted serialises through bytes.Buffer/io.Writer (outside the subset); result unconstrained here
+//@   trusted serialises through bytes.Buffer/io.Writer (outside the subset); the bytes are unconstrained here, the slice is newly allocated
+//@   ensures fresh(h)
 
 //@ // Placement of the negotiation (C11): where the listener negotiates (client side with
 //@ // ClientSideAuthentication, server side without it), nothing that reads or forwards the
